@@ -303,12 +303,21 @@ def f16_shape(cwd, tlist, rlist, intended_roots, files):
     return hits
 
 
+def bare_name_above_root(rlist, intended_roots):
+    """(3) a bare root name of the call is also the name of a directory ABOVE one of the intended roots: the first directory
+    of a path that carries one of the names wins (strategy 4), so the files of that root get another root"""
+    bare = [rc[0] for ra, rc in rlist if not ra and len(rc) == 1]
+    return any(n in r[:-1] for n in bare for r in intended_roots)
+
+
 def walk_up_hazard(cwd, tlist, rlist, intended_roots, files):
     """Designations that are ambiguous by construction and therefore not part of a strict group (they are still compared
     with the model): (1) the F16 shape; (2) a relative target that begins with the name of its root (relative to the
     directory that contains the root, not to the working directory) while a relative root of the call is, as a pure path,
     a prefix of it ('.' or a bare name that is also the name of another root)."""
     if f16_shape(cwd, tlist, rlist, intended_roots, files):
+        return True
+    if bare_name_above_root(rlist, intended_roots):
         return True
     fset = {tuple(f["p"]) for f in files}
     for a, tg in tlist:
@@ -356,6 +365,8 @@ def add_link_calls(rng, case, gkey, pairs, roots_inv, dirs, k=0):
         calls.append(("bare", [], [[True, via(fp)]] + others_t, [[False, [nm]]] + [[True, x] for x in roots_inv if x != r]))
     rng.shuffle(calls)
     for kind, cwd, tl, rl in calls[:rng.choice([2, 3, 4])]:
+        if bare_name_above_root(rl, roots_inv):
+            continue
         tl, rl = list(tl), list(rl)
         rng.shuffle(tl)
         rng.shuffle(rl)
@@ -789,7 +800,7 @@ def predicate(case, obs, skip):
     has one identity in every call that returns it.  Returns a text when it fails."""
     groups = {}
     for c, ob in zip(case["calls"], obs):
-        if c.get("gkey") and not skip(c):
+        if c.get("gkey") and not skip(c) and not (c["api"] == "files" and bare_name_above_root(c["roots"], c.get("iroots") or [])):
             groups.setdefault(c["gkey"], []).append(ob)
     for gk, obl in groups.items():
         for ob in obl[1:]:
@@ -885,6 +896,9 @@ def run_impl(cases):
                 finally:
                     os.chdir(home)
             o = {"calls": obs}
+            if outside_contract(case):
+                out.append(o)
+                continue
             pf = predicate(case, obs, skip=lambda c: False)
             for ob in obs:       # the content that was parsed is the content of the file that source_file_path names
                 for i in ob.get("ids", []):
@@ -920,7 +934,15 @@ def e_ident(i):
     return "(C15.I %s %s %s %s %s %s)" % (G.codepoints(i[0]), G.z(i[1]), G.z(i[2]), port, e_comps(i[4]), e_comps(i[5]))
 
 
+def outside_contract(case):
+    """a random-stream case (e.g. an old replay) whose tree violates the generator's contract: two definitions with one
+    numeric port-ID or one name - what happens then is C11's subject, not C15's"""
+    return "meta" in case and cross_definition_conflict(case)
+
+
 def emit(case, obs):
+    if outside_contract(case):
+        return "(C15.mkCase (mkFs [] []) [])"
     files = G.lst(["(%s, %s)" % (e_comps(f["p"]), G.b(f["svc"])) for f in case["files"]])
     dirs = G.lst([e_comps(list(d)) for d in all_dirs(case)])
     calls = []
